@@ -265,6 +265,17 @@ func CheckUpdate(pc *PathCtx) {
 			pc.Report("write", where, "update method writes into the source", m, false)
 			return
 		}
+		// ... and nothing the target merely referred to before the call: another holder of that map / backing array
+		// / pointee would see it change (the method modifies only the struct ARG points to)
+		if where, ok := pc.TgtRefsPre[w]; ok {
+			if _, alsoSrc := srcSet[w]; alsoSrc {
+				continue
+			}
+			pc.Rep.Discharged--
+			m, _ := pc.R.Witness(nil)
+			pc.Report("write", where, "update method writes through a reference the target held before the call (a map, backing array or pointee that is not part of the struct ARG points to)", m, false)
+			return
+		}
 	}
 	S := pc.SrcT
 	src := pc.Src
@@ -406,9 +417,17 @@ func CheckDefault(pc *PathCtx) {
 				}
 			}
 		}
-		if m, isMap := src.(engine.Map); isMap && m.M == nil && !srcPtr && !tgtPtr {
-			// a map-typed method starts from FUNC's result: that is what a nil source returns
-			o.leaf("result", o.resultIs(d.Result, d.ResultType, got, T), "nil source map must return default FUNC's result unchanged")
+		nilContainer := false
+		switch v := src.(type) {
+		case engine.Map:
+			nilContainer = v.M == nil
+		case engine.Slice:
+			nilContainer = v.Nil && tgtPtr
+		}
+		if nilContainer && !srcPtr {
+			// a map-typed method (and a T -> *U method over a slice or map) starts from FUNC's result: that is what
+			// a nil source returns
+			o.leaf("result", o.resultIs(dv, dt, got, T), "nil source map / slice must return default FUNC's result unchanged")
 			pc.ProveLeaves("default", o)
 			return
 		}
